@@ -144,7 +144,11 @@ impl<'a> Explorer<'a> {
         let (ri, di) = self.calls[c];
         // as a real caller does: the inputs of a call are built (parsed) for it and dropped after it, so
         // heap addresses are reused from call to call - anything remembered by address goes stale
-        let (r0, d0): (Value, Value) = (serde_json::from_str(&self.rules[ri].to_string()).unwrap(), serde_json::from_str(&self.datas[di].to_string()).unwrap());
+        // (values nested deeper than the text parser accepts are cloned instead)
+        let (r0, d0): (Value, Value) = (
+            serde_json::from_str(&self.rules[ri].to_string()).unwrap_or_else(|_| self.rules[ri].clone()),
+            serde_json::from_str(&self.datas[di].to_string()).unwrap_or_else(|_| self.datas[di].clone()),
+        );
         let o = exec::apply(&r0, &d0);
         let intact = r0 == self.rules[ri] && d0 == self.datas[di] && r0.to_string() == self.rules[ri].to_string() && d0.to_string() == self.datas[di].to_string();
         drop(r0);
@@ -300,7 +304,46 @@ pub fn capacity_datas() -> Vec<Value> {
     vec![Value::Object(m)]
 }
 
+/// Error-exit alphabet: rules that fail (at parse time: a wrong operand count; at evaluation time: a
+/// non-numeric operand) at nesting depth 1, 10, 60 and 120, under eager, lazy and iterating wrappers, and
+/// well-formed rules of the same depths: whatever a failing call leaves behind on its way out (a depth
+/// counter, a budget, a scratch stack) is met by the next call.
+pub fn error_exit_rules() -> Vec<Value> {
+    let wrap = |k: &str, depth: usize, leaf: Value| -> Value {
+        let mut v = leaf;
+        for _ in 0..depth {
+            v = match k {
+                "if" => json!({"if": [true, v, 0]}),
+                "and" => json!({"and": [1, v]}),
+                "map" => json!({"reduce": [{"map": [[1], v]}, {"var": "current"}, 0]}),
+                _ => json!({k: [v]}),
+            };
+        }
+        v
+    };
+    let mut r = Vec::new();
+    for depth in [1usize, 10, 60, 120] {
+        for k in ["cat", "!", "if", "and"] {
+            r.push(wrap(k, depth, json!({"==": [1]})));
+            r.push(wrap(k, depth, json!({"+": ["x"]})));
+            r.push(wrap(k, depth, json!({"var": "a"})));
+        }
+    }
+    for depth in [1usize, 10, 40] {
+        r.push(wrap("map", depth, json!({"==": [1]})));
+        r.push(wrap("map", depth, json!({"var": ""})));
+    }
+    r.push(json!({"var": "a"}));
+    r.push(json!({"+": [{"var": "a"}, 1]}));
+    r
+}
+
+pub fn error_exit_datas() -> Vec<Value> {
+    vec![json!({"a": 4})]
+}
+
 pub fn run(ctx: &mut Ctx) {
+    run_alphabet(ctx, "error-exit", error_exit_rules(), error_exit_datas(), 24, 1);
     run_alphabet(ctx, "capacity", capacity_rules(), capacity_datas(), 13, 1);
     run_alphabet(ctx, "twins", rules(), twin_datas(), 40, 2);
     run_alphabet(ctx, "lexer", lexer_rules(), lexer_datas(), 24, 2);
@@ -442,7 +485,7 @@ pub fn replay(rec: &Value) -> i32 {
     let mut last = None;
     for (i, h) in hist.iter().enumerate() {
         // as in the explorer: inputs built for the call and dropped after it
-        let (r0, d0): (Value, Value) = (serde_json::from_str(&h["rule"].to_string()).unwrap(), serde_json::from_str(&h["data"].to_string()).unwrap());
+        let (r0, d0): (Value, Value) = (serde_json::from_str(&h["rule"].to_string()).unwrap_or_else(|_| h["rule"].clone()), serde_json::from_str(&h["data"].to_string()).unwrap_or_else(|_| h["data"].clone()));
         let o = exec::apply(&r0, &d0);
         drop(r0);
         drop(d0);
